@@ -76,6 +76,8 @@ type bodyStream struct {
 	chunkLeft       int
 	// whether the chunk has reached the EOF
 	chunkEOF bool
+	// the connection ended before the end of a fixed-length body
+	truncated bool
 }
 
 func ReadBodyWithStreaming(zr network.Reader, contentLength, maxBodySize int, dst []byte) (b []byte, err error) {
@@ -225,6 +227,9 @@ func (rs *bodyStream) Read(p []byte) (int, error) {
 		if err == io.EOF {
 			if rs.offset != rs.contentLength && rs.contentLength != -2 {
 				err = io.ErrUnexpectedEOF
+				// nothing is left to skip, but the connection is not usable any more:
+				// skipRest has to say so
+				rs.truncated = true
 			}
 			// ensure that skipRest works fine
 			rs.offset = rs.contentLength
@@ -242,6 +247,10 @@ func (rs *bodyStream) skipRest() error {
 	// the bodyStream has been skip rest
 	if rs.prefetchedBytes == nil {
 		return nil
+	}
+
+	if rs.truncated {
+		return io.ErrUnexpectedEOF
 	}
 
 	// the request is chunked encoding
@@ -387,6 +396,7 @@ func (rs *bodyStream) reset() {
 	rs.reader = nil
 	rs.trailer = nil
 	rs.chunkEOF = false
+	rs.truncated = false
 	rs.chunkLeft = 0
 	rs.contentLength = 0
 }
